@@ -30,7 +30,7 @@ def main():
     checks = [pid] + sys.argv[3:]
     wt = '/tmp/wt_%s' % pid
     diff, demo_c, meta_t = [wt + '/%s%s.%s' % (a, n, b) for a, b in (('seed', 'diff'), ('demo', 'c'), ('meta', 'txt'))]
-    name = '%s-%s' % (pid, n)
+    name = '%s-%s%s' % (pid, os.environ.get('SEED_TAG', ''), n)
     res = dict(id=name, breaks=pid, source='independent sub-agent given only the property text and a scratch worktree')
     res['needs'] = open(meta_t).read()[:3000] if os.path.exists(meta_t) else ''
     clean, mut = '/tmp/sc_%s_clean' % name, '/tmp/sc_%s_mut' % name
